@@ -97,63 +97,71 @@ type argStats struct {
 	specEx                                                                        []string // differences explained by the variable links alone
 	specOther                                                                     []string // any other difference
 	specLinked                                                                    int
-	byDoc                                                                         map[string]int
+	replays                                                                       map[string]map[string]any
 }
 
-func (c *Ctx) checkArgMaps(sdl string, report bool) {
-	st := &argStats{panicEx: map[string]string{}}
-	evalsBefore := c.Ev.Evals
-	var docs []string
-	for _, d := range argDocs {
-		if strings.Contains(d, "%C") {
-			for _, l := range customLits {
-				docs = append(docs, strings.ReplaceAll(d, "%C", l))
-			}
-		} else {
-			docs = append(docs, d)
-		}
+// reportArgMaps files the C15 findings of a run
+func reportArgMaps(c *Ctx, st *argStats) {
+	keys := make([]string, 0, len(st.panicEx))
+	for k := range st.panicEx {
+		keys = append(keys, k)
 	}
-	var reqs []string
-	type ref struct {
-		doc, vars string
-		coerce    bool
+	sort.Strings(keys)
+	for _, k := range keys {
+		c.Report("spec", "argmap-panic", fmt.Sprintf("ArgumentMap panics (%s) on a validated document: %s", k, st.panicEx[k]), st.replays["panic:"+k])
 	}
-	var refs []ref
-	dist := map[string]int{}
-	for _, d := range docs {
-		nOps := strings.Count(d, "query ") + strings.Count(d, "mutation ")
-		for oi := 0; oi < max(nOps, 1); oi++ {
-			for _, v := range argVarSets {
-				for _, co := range []string{"0", "1"} {
-					reqs = append(reqs, "argmapgo "+impl.HexW([]byte(sdl))+" "+impl.HexW([]byte(d))+" "+fmt.Sprint(oi)+" "+co+" "+v)
-					refs = append(refs, ref{d, v, co == "1"})
-					dist[fmt.Sprintf("hand-written family: operation %d executed", oi)]++
-				}
-			}
-		}
+	for _, e := range st.specEx {
+		c.Report("spec", "argmap-precedence:default-of-another-operation-linked", "argument map differs from argSpec for the executed operation (it follows the variable definition of another operation): "+e[:min(900, len(e))], st.replays[e])
 	}
-	// generated family: generated schemas, generated valid documents, every operation executed with
-	// generated conforming variables (coerced first)
-	nSchemas := c.Pick(120, 1200)
-	for si := 0; si < nSchemas; si++ {
-		gs := gen.GenSchema(c.R, c.R.Intn(9))
-		gsdl := gs.SDL()
-		for di := 0; di < 4; di++ {
-			d := gen.GenDoc(c.R, gs, 1+c.R.Intn(5))
-			for oi, op := range d.Ops {
-				for j := 0; j < 2; j++ {
-					m, _ := gen.GenVars(c.R, gs, d.Text, op.Name, true)
-					v := impl.SexpGoVal(m)
-					reqs = append(reqs, "argmapgo "+impl.HexW([]byte(gsdl))+" "+impl.HexW([]byte(d.Text))+" "+fmt.Sprint(oi)+" 1 "+v)
-					refs = append(refs, ref{d.Text, v, true})
-				}
-				dist[fmt.Sprintf("generated family: operation with %d variables executed", min(len(op.Vars), 6))]++
-			}
-			dist[fmt.Sprintf("generated family: document with %d operations", min(len(d.Ops), 4))]++
-			if d.Fragments > 0 {
-				dist["generated family: document with fragments"]++
-			}
-		}
+	for _, e := range st.specOther {
+		c.Report("spec", "argmap-precedence:differs-from-spec", "argument map differs from argSpec: "+e[:min(900, len(e))], st.replays[e])
+	}
+}
+
+func replayArgMaps(c *Ctx, rep map[string]any) {
+	str := func(k string) string { s, _ := rep[k].(string); return s }
+	r := argRef{sdl: str("schema"), doc: str("document"), vars: str("vars")}
+	if f, ok := rep["op_index"].(float64); ok {
+		r.oi = int(f)
+	}
+	r.coerce, _ = rep["coerce"].(bool)
+	if r.sdl == "" || r.doc == "" || r.vars == "" {
+		c.ReportNoInput("runtime", "replay-unusable", "replay file has no schema/document/vars", nil)
+		return
+	}
+	st := &argStats{panicEx: map[string]string{}, replays: map[string]map[string]any{}}
+	c.runArgMaps([]argRef{r}, st, map[string]int{})
+	fmt.Printf("replayed: %d sites, go OK %d, PANIC %d, model mismatches %d, differs from argSpec %d (by the links only: %d)\n", st.sites, st.ok, st.panics, st.mismatches, st.specDiff, st.specLinked)
+	reportArgMaps(c, st)
+}
+
+func init() { Replayers["C15"] = replayArgMaps }
+
+type argRef struct {
+	sdl, doc, vars string
+	oi             int
+	coerce         bool
+}
+
+func (r argRef) request() string {
+	co := "0"
+	if r.coerce {
+		co = "1"
+	}
+	return "argmapgo " + impl.HexW([]byte(r.sdl)) + " " + impl.HexW([]byte(r.doc)) + " " + fmt.Sprint(r.oi) + " " + co + " " + r.vars
+}
+
+func (r argRef) replay() map[string]any {
+	return map[string]any{"op": "argmap", "schema": r.sdl, "document": r.doc, "op_index": r.oi, "coerce": r.coerce, "vars": r.vars}
+}
+
+
+// runArgMaps: the real ArgumentMap on every site of every (document, operation, variables) of refs,
+// compared with the model (correspondence) and with argSpec (C15)
+func (c *Ctx) runArgMaps(refs []argRef, st *argStats, dist map[string]int) {
+	reqs := make([]string, len(refs))
+	for i := range refs {
+		reqs[i] = refs[i].request()
 	}
 	replies := c.Worker.Map(reqs)
 	var dreqs, want, sreqs, lreqs []string
@@ -189,7 +197,6 @@ func (c *Ctx) checkArgMaps(sdl string, report bool) {
 			}
 		}
 	}
-	st.docs = len(docs) + nSchemas*4
 	got := c.Driver.Map(dreqs)
 	for i := range got {
 		st.sites++
@@ -220,6 +227,7 @@ func (c *Ctx) checkArgMaps(sdl string, report bool) {
 			b, _ := impl.UnhexW(strings.TrimPrefix(want[i], "PANIC "))
 			msg := string(b)
 			if _, ok := st.panicEx[msg]; !ok {
+				st.replays["panic:"+msg] = refs[dref[i]].replay()
 				st.panicEx[msg] = refs[dref[i]].doc
 			}
 		}
@@ -227,7 +235,11 @@ func (c *Ctx) checkArgMaps(sdl string, report bool) {
 			st.mismatches++
 			r := refs[dref[i]]
 			c.Report("correspondence", "argmap-model-differs", fmt.Sprintf("ArgumentMap and the Lean model disagree on %s with %s: go=%s model=%s", r.doc, r.vars, want[i], got[i]),
-				map[string]any{"op": "argmap", "document": r.doc, "vars": r.vars, "request": dreqs[i], "go_observation": want[i], "model_observation": got[i]})
+				func() map[string]any {
+					m := r.replay()
+					m["request"], m["go_observation"], m["model_observation"] = dreqs[i], want[i], got[i]
+					return m
+				}())
 		}
 	}
 	spec := c.Driver.Map(sreqs)
@@ -250,12 +262,66 @@ func (c *Ctx) checkArgMaps(sdl string, report bool) {
 				if !seen[r.doc] && len(st.specEx) < 12 {
 					seen[r.doc] = true
 					st.specEx = append(st.specEx, ex)
+					st.replays[ex] = r.replay()
 				}
 			} else {
 				st.specOther = append(st.specOther, ex)
+				st.replays[ex] = r.replay()
 			}
 		}
 	}
+}
+
+func (c *Ctx) checkArgMaps(sdl string, report bool) {
+	st := &argStats{panicEx: map[string]string{}, replays: map[string]map[string]any{}}
+	evalsBefore := c.Ev.Evals
+	var docs []string
+	for _, d := range argDocs {
+		if strings.Contains(d, "%C") {
+			for _, l := range customLits {
+				docs = append(docs, strings.ReplaceAll(d, "%C", l))
+			}
+		} else {
+			docs = append(docs, d)
+		}
+	}
+	var refs []argRef
+	dist := map[string]int{}
+	for _, d := range docs {
+		nOps := strings.Count(d, "query ") + strings.Count(d, "mutation ")
+		for oi := 0; oi < max(nOps, 1); oi++ {
+			for _, v := range argVarSets {
+				for _, co := range []string{"0", "1"} {
+					refs = append(refs, argRef{sdl, d, v, oi, co == "1"})
+					dist[fmt.Sprintf("hand-written family: operation %d executed", oi)]++
+				}
+			}
+		}
+	}
+	// generated family: generated schemas, generated valid documents, every operation executed with
+	// generated conforming variables (coerced first)
+	nSchemas := c.Pick(120, 1200)
+	for si := 0; si < nSchemas; si++ {
+		gs := gen.GenSchema(c.R, c.R.Intn(9))
+		gsdl := gs.SDL()
+		for di := 0; di < 4; di++ {
+			d := gen.GenDoc(c.R, gs, 1+c.R.Intn(5))
+			for oi, op := range d.Ops {
+				for j := 0; j < 2; j++ {
+					m, _ := gen.GenVars(c.R, gs, d.Text, op.Name, true)
+					v := impl.SexpGoVal(m)
+					refs = append(refs, argRef{gsdl, d.Text, v, oi, true})
+				}
+				dist[fmt.Sprintf("generated family: operation with %d variables executed", min(len(op.Vars), 6))]++
+			}
+			dist[fmt.Sprintf("generated family: document with %d operations", min(len(d.Ops), 4))]++
+			if d.Fragments > 0 {
+				dist["generated family: document with fragments"]++
+			}
+		}
+	}
+	st.docs = len(docs) + nSchemas*4
+	c.runArgMaps(refs, st, dist)
 	fmt.Printf("X-vars argmap: %d documents (%d rejected by validation), %d field/directive sites: go OK %d, PANIC %d; coercion failed for %d (document, vars) pairs; MISMATCHES %d\n",
 		st.docs, st.invalid, st.sites, st.ok, st.panics, st.nocoerce, st.mismatches)
 	keys := make([]string, 0, len(st.panicEx))
@@ -289,19 +355,7 @@ func (c *Ctx) checkArgMaps(sdl string, report bool) {
 	c.Ev.Extra["argmap"] = map[string]int{"documents": st.docs, "documents_rejected_by_validation": st.invalid, "sites": st.sites, "go_ok": st.ok, "go_panic": st.panics,
 		"coercion_failed_pairs": st.nocoerce, "spec_checked_sites": st.specChecked, "spec_differs": st.specDiff, "spec_differs_by_links_only": st.specLinked}
 	c.Ev.Evals = evalsBefore + st.sites
-	if !report {
-		return
-	}
-	for _, k := range keys {
-		c.Report("spec", "argmap-panic", fmt.Sprintf("ArgumentMap panics (%s) on a validated document: %s", k, st.panicEx[k]),
-			map[string]any{"op": "argmap", "schema": sdl, "document": st.panicEx[k], "panic": k})
-	}
-	for _, e := range st.specEx {
-		c.Report("spec", "argmap-precedence:default-of-another-operation-linked", "argument map differs from argSpec for the executed operation (it follows the variable definition of another operation): "+e[:min(900, len(e))],
-			map[string]any{"op": "argmap", "schema": sdl, "example": e})
-	}
-	for _, e := range st.specOther {
-		c.Report("spec", "argmap-precedence:differs-from-spec", "argument map differs from argSpec: "+e[:min(900, len(e))],
-			map[string]any{"op": "argmap", "schema": sdl, "example": e})
+	if report {
+		reportArgMaps(c, st)
 	}
 }
